@@ -163,6 +163,7 @@ type Ex struct {
 	LevelChk bool            // ghost frame level tracking (C16)
 	Top      *Frame
 	covers   int
+	pendingFacts []*T
 	Partial  []string // paths abandoned because they left the supported subset
 }
 
@@ -883,7 +884,29 @@ func (ex *Ex) navSet(v *T, path []Step, nv *T) *T {
 	return w.StructSet(v, s.St, s.Field, inner)
 }
 
+// ifaceTypeFact: a non-nil value of static interface type I has I's methods (type soundness).
+func (ex *Ex) ifaceTypeFact(v *T, t types.Type) *T {
+	if v == nil || t == nil || !v.S.Eq(SIface) {
+		return nil
+	}
+	it, ok := t.Underlying().(*types.Interface)
+	if !ok || it.NumMethods() == 0 {
+		return nil
+	}
+	return Implies(Not(IfaceIsNil(v)), ex.implementsTerm(Dyn(v), it))
+}
+
 func (ex *Ex) loadFrom(fr *Frame, st *State, addr Val, t types.Type, ins ssa.Instruction) Val {
+	r := ex.loadFrom0(fr, st, addr, t, ins)
+	if r.T != nil && t != nil {
+		if f := ex.ifaceTypeFact(r.T, t); f != nil {
+			st.Assume(f)
+		}
+	}
+	return r
+}
+
+func (ex *Ex) loadFrom0(fr *Frame, st *State, addr Val, t types.Type, ins ssa.Instruction) Val {
 	w := ex.W
 	l := ex.asLoc(fr, st, addr, t, ins)
 	switch {
